@@ -35,7 +35,7 @@ META = {
                    "Coq for the hand model (also for an arbitrary distribution list); decimal digits, the distribution "
                    "sum and length are proved too. The statement for ALL totals is refuted (total < sum: IndexError) "
                    "by a machine-checked witness that replays on the real function."),
-    "level_note": ("Trusted: Coq kernel, vm_compute, the hand model's correspondence (bounded: all multisets with sum <= 18/30 "
+    "level_note": ("Trusted: Coq kernel, vm_compute, the hand model's correspondence (bounded: all multisets with sum <= 18/26 "
                    "plus random ones up to 10^6), Python int/str/list semantics as exercised, bzrformats "
                    "CombinedGraphIndex.key_count = sum of per-pack counts (checked on real repositories in the run)."),
     "design_ref": "DESIGN.md §5 C07",
@@ -48,7 +48,7 @@ META = {
              "multisets of structured sizes up to 10^6, the real _do_autopack on fake packs, real repositories; "
              "non-trivial = more packs than the digit sum of the total (the planner actually plans)"),
 }
-SHARD = 250
+SHARD = 500
 FINDING = "C07-total-below-sum"
 
 
@@ -114,17 +114,17 @@ def corpus():
 def cases(rng, tier):
     quick = tier == "quick"
     # 1. exhaustive: every multiset of positive counts with sum n, total = n
-    for n in range(1, (18 if quick else 30) + 1):
+    for n in range(1, (18 if quick else 26) + 1):
         for p in _partitions(n):
             yield {"kind": "direct", "total": n, "packs": _with_ids(p, rng)}
     # 2. small multisets x every total in 0 .. n+3 and a few large ones
-    for n in range(1, (8 if quick else 13) + 1):
+    for n in range(1, (8 if quick else 11) + 1):
         for p in _partitions(n):
             for total in list(range(0, n + 4)) + [10 * n, 10 * n + 1, 100]:
                 if total != n:
                     yield {"kind": "direct", "total": total, "packs": _with_ids(p, rng)}
     # 3. random structured multisets, totals around the sum
-    for _ in range(500 if quick else 12000):
+    for _ in range(500 if quick else 5000):
         counts = _random_counts(rng, 30 if quick else 40)
         s = sum(counts)
         r = rng.random()
@@ -136,7 +136,7 @@ def cases(rng, tier):
             total = max(0, s - rng.choice([1, 1, 2, 10, rng.randint(1, s)]))
         yield {"kind": "direct", "total": total, "packs": _with_ids(counts, rng)}
     # 4. the planner on arbitrary distribution lists, zero counts allowed
-    for _ in range(300 if quick else 4000):
+    for _ in range(300 if quick else 2000):
         counts = [rng.randint(0, 25) for _ in range(rng.randint(0, 10))]
         dist = [rng.choice([0, 1, 1, 2, 3, 5, 10, 10, 20, 100]) for _ in range(rng.randint(0, 8))]
         yield {"kind": "raw", "dist": dist, "packs": _with_ids(counts, rng)}
@@ -144,7 +144,7 @@ def cases(rng, tier):
     for n in range(1, (8 if quick else 12) + 1):
         for p in _partitions(n):
             yield {"kind": "auto", "total": None, "packs": _with_ids(p, rng)}
-    for _ in range(400 if quick else 6000):
+    for _ in range(400 if quick else 3000):
         counts = _random_counts(rng, 25)
         if rng.random() < 0.3:
             counts += [0] * rng.randint(1, 4)
